@@ -11,7 +11,7 @@ from fractions import Fraction
 from . import engine, c06, c16, docutil
 
 svg = None
-CASE_TIMEOUT = 20.0
+CASE_TIMEOUT = 10.0
 CLS = {"rect": "Rect", "circle": "Circle", "ellipse": "Ellipse", "line": "SimpleLine", "polyline": "Polyline", "polygon": "Polygon", "path": "Path"}
 
 
